@@ -24,6 +24,19 @@ pub fn install_panic_hook(verbose: bool) {
     }));
 }
 
+/// A panic that escaped a case function: raised in the library under test (or one of its
+/// dependencies) it is a violation of the property being checked, raised in the harness's own
+/// sources it is a harness bug. The signature is filed under the property by the driver.
+pub fn classify_escaped_panic(msg: &str) -> Option<(String, String)> {
+    let (loc, m) = LAST_PANIC.with(|l| l.borrow().clone())?;
+    let own = ["mc/src/", "explore/src/", "e57spec/src/", "/engine/"];
+    if own.iter().any(|p| loc.starts_with(p) || loc.contains(p)) {
+        return None;
+    }
+    let pi = PanicInfo { loc: loc.clone(), msg: m };
+    Some((format!("C00/panic-in-library/{}", pi.class()), format!("the code under test panicked at {loc} ({msg}) in a call the harness does not wrap")))
+}
+
 #[derive(Clone, Debug)]
 pub struct PanicInfo {
     pub loc: String,
